@@ -177,7 +177,11 @@ class Rational(Primitive):
                 result = impl(self._value, right._value)
             except ZeroDivisionError:
                 raise _any.InvalidOperandError("Cannot divide %s by zero" % self._value) from None
+            except OverflowError:  # E.g., a non-integer power of a huge base is evaluated in floating point.
+                raise _any.InvalidOperandError("The result is too large to be represented") from None
             else:
+                if isinstance(result, complex):  # E.g., a non-integer power of a negative base.
+                    raise _any.InvalidOperandError("The result is not a real number")
                 return Rational(result)
         else:
             raise _any.UndefinedOperatorError
